@@ -589,4 +589,237 @@ theorem init_mark (dp : Dataplane) (A T m : Mark) (setA : Bool) :
   cases dp <;> cases setA <;> simp only [applyMark] <;> ext i hi <;> simp <;>
     cases m[i] <;> cases A[i] <;> cases T[i] <;> simp
 
+/-! ### evaluating match blocks -/
+
+def markFree : Clause → Bool
+  | .mark _ _ _ => false
+  | _ => true
+
+theorem matches_markFree (env : Env) (pkt : Packet) (c : Clause) (h : markFree c = true) (m1 m2 : Mark) :
+    c.matches env pkt m1 = c.matches env pkt m2 := by
+  cases c with
+  | mark => simp [markFree] at h
+  | net d => cases d <;> rfl
+  | ipset d => cases d <;> rfl
+  | ipportset d => cases d <;> rfl
+  | ports d => cases d <;> rfl
+  | _ => rfl
+
+theorem clausesMatch_markFree (env : Env) (pkt : Packet) (cs : List Clause) (h : cs.all markFree = true)
+    (m1 m2 : Mark) : clausesMatch env pkt m1 cs = clausesMatch env pkt m2 cs := by
+  induction cs with
+  | nil => rfl
+  | cons c cs ih =>
+    simp only [List.all_cons, Bool.and_eq_true] at h
+    simp only [clausesMatch, List.all_cons] at ih ⊢
+    rw [matches_markFree env pkt c h.1 m1 m2, ih h.2]
+
+def setter (x : Mark) (cs : List Clause) : Netfilter.Rule := { clauses := cs, action := .setMark x }
+def clearer (x : Mark) (cs : List Clause) : Netfilter.Rule := { clauses := cs, action := .clearMark x }
+
+theorem run_setters (env : Env) (call : String → Mark → Result) (pkt : Packet) (x : Mark)
+    (l : List (List Clause)) (hl : ∀ cs ∈ l, cs.all markFree = true) (rest : List Netfilter.Rule) (m : Mark) :
+    runRules env call pkt (l.map (setter x) ++ rest) m =
+      runRules env call pkt rest (if l.any (clausesMatch env pkt 0) then m ||| x else m) := by
+  induction l generalizing m with
+  | nil => simp
+  | cons cs l ih =>
+    have hcs := hl cs List.mem_cons_self
+    have hl' : ∀ cs ∈ l, cs.all markFree = true := fun c hc => hl c (List.mem_cons_of_mem _ hc)
+    simp only [List.map_cons, List.cons_append, List.any_cons]
+    rw [runRules]
+    have hm : (setter x cs).matches env pkt m = clausesMatch env pkt 0 cs := by
+      simp only [setter, Rule.matches]; exact clausesMatch_markFree env pkt cs hcs m 0
+    rw [hm]
+    by_cases h : clausesMatch env pkt 0 cs = true
+    · simp only [h, if_true, setter, resolveAction, applyMark, Bool.true_or]
+      rw [ih hl']
+      have : (m ||| x) ||| x = m ||| x := by rw [BitVec.or_assoc, BitVec.or_self]
+      split <;> simp [this]
+    · have h' : clausesMatch env pkt 0 cs = false := by simpa using h
+      simp only [h', Bool.false_eq_true, if_false, Bool.false_or]
+      exact ih hl' m
+
+theorem run_clearers (env : Env) (call : String → Mark → Result) (pkt : Packet) (x : Mark)
+    (l : List (List Clause)) (hl : ∀ cs ∈ l, cs.all markFree = true) (rest : List Netfilter.Rule) (m : Mark) :
+    runRules env call pkt (l.map (clearer x) ++ rest) m =
+      runRules env call pkt rest (if l.any (clausesMatch env pkt 0) then m &&& ~~~ x else m) := by
+  induction l generalizing m with
+  | nil => simp
+  | cons cs l ih =>
+    have hcs := hl cs List.mem_cons_self
+    have hl' : ∀ cs ∈ l, cs.all markFree = true := fun c hc => hl c (List.mem_cons_of_mem _ hc)
+    simp only [List.map_cons, List.cons_append, List.any_cons]
+    rw [runRules]
+    have hm : (clearer x cs).matches env pkt m = clausesMatch env pkt 0 cs := by
+      simp only [clearer, Rule.matches]; exact clausesMatch_markFree env pkt cs hcs m 0
+    rw [hm]
+    by_cases h : clausesMatch env pkt 0 cs = true
+    · simp only [h, if_true, clearer, resolveAction, applyMark, Bool.true_or]
+      rw [ih hl']
+      have : (m &&& ~~~ x) &&& ~~~ x = m &&& ~~~ x := by rw [BitVec.and_assoc, BitVec.and_self]
+      split <;> simp [this]
+    · have h' : clausesMatch env pkt 0 cs = false := by simpa using h
+      simp only [h', Bool.false_eq_true, if_false, Bool.false_or]
+      exact ih hl' m
+
+/-! ### the builder invariant -/
+
+/-- `b.rules`, run from any mark, leave AllBlocksPass = `pred` (a packet-only predicate); `npos`
+positive blocks have been appended; ThisBlockPass is still clear while `npos ≤ 1`. -/
+structure BInv (env : Env) (call : String → Mark → Result) (pkt : Packet) (cfg : Cfg) (b : MBB)
+    (npos : Nat) (pred : Bool) : Prop where
+  idle : b.usingBlocks = false → b.rules = [] ∧ npos = 0 ∧ pred = true
+  run : b.usingBlocks = true → ∀ rest m, ∃ t, (npos ≤ 1 → t = false) ∧
+      runRules env call pkt (b.rules ++ rest) m =
+        runRules env call pkt rest
+          (mk cfg.markScratch0 cfg.markScratch1 (baseOf cfg.markScratch0 cfg.markScratch1 m) pred t)
+  done : b.doneFirstPositive = decide (1 ≤ npos)
+
+theorem BInv.empty (env : Env) (call : String → Mark → Result) (pkt : Packet) (cfg : Cfg) :
+    BInv env call pkt cfg {} 0 true :=
+  ⟨fun _ => ⟨rfl, rfl, rfl⟩, fun h => by simp at h, rfl⟩
+
+def posAppend (cfg : Cfg) (b : MBB) (l : List (List Clause)) : MBB :=
+  let b1 := b.maybeInit cfg 0
+  ({ b1 with rules := b1.rules ++ l.map (setter (b1.markToSet cfg)) }).finishPositive cfg
+
+def negAppend (cfg : Cfg) (b : MBB) (l : List (List Clause)) : MBB :=
+  let b1 := b.maybeInit cfg cfg.markScratch0
+  { b1 with rules := b1.rules ++ l.map (clearer cfg.markScratch0) }
+
+theorem runRules_init (env : Env) (call : String → Mark → Result) (pkt : Packet) (cfg : Cfg) (setA : Bool)
+    (rest : List Netfilter.Rule) (m : Mark) :
+    runRules env call pkt
+      (({ action := .setMaskedMark (if setA then cfg.markScratch0 else 0) (cfg.markScratch0 ||| cfg.markScratch1) } : Netfilter.Rule) :: rest) m =
+      runRules env call pkt rest
+        (mk cfg.markScratch0 cfg.markScratch1 (baseOf cfg.markScratch0 cfg.markScratch1 m) setA false) := by
+  rw [runRules]
+  simp only [Rule.matches, List.all_nil, if_true, resolveAction]
+  rw [init_mark]
+
+theorem pos_inv (env : Env) (call : String → Mark → Result) (pkt : Packet) (cfg : Cfg)
+    (hT : cfg.markScratch1 ≠ 0) (hAT : cfg.markScratch0 &&& cfg.markScratch1 = 0)
+    (b : MBB) (npos : Nat) (pred : Bool) (l : List (List Clause))
+    (hl : ∀ cs ∈ l, cs.all markFree = true)
+    (hfresh : npos = 0 → b.usingBlocks = false) (hn : npos ≤ 1)
+    (inv : BInv env call pkt cfg b npos pred) :
+    BInv env call pkt cfg (posAppend cfg b l) (npos + 1) (pred && l.any (clausesMatch env pkt 0)) := by
+  rcases Nat.lt_or_ge npos 1 with h0 | h1
+  · -- first positive block of a fresh builder
+    have hz : npos = 0 := by omega
+    subst hz
+    have hu := hfresh rfl
+    obtain ⟨hr, _, hp⟩ := inv.idle hu
+    have hd : b.doneFirstPositive = false := by simpa using inv.done
+    subst hp
+    have hb : posAppend cfg b l =
+        { usingBlocks := true, doneFirstPositive := true,
+          rules := ({ action := .setMaskedMark 0 (cfg.markScratch0 ||| cfg.markScratch1) } : Netfilter.Rule) ::
+            l.map (setter cfg.markScratch0) } := by
+      simp [posAppend, MBB.maybeInit, MBB.markToSet, MBB.finishPositive, hu, hr, hd]
+    rw [hb]
+    refine ⟨fun h => by simp at h, ?_, by simp⟩
+    intro _ rest m
+    refine ⟨false, fun _ => rfl, ?_⟩
+    simp only [List.cons_append]
+    have := runRules_init env call pkt cfg false (l.map (setter cfg.markScratch0) ++ rest) m
+    simp only [Bool.false_eq_true, if_false] at this
+    rw [this, run_setters env call pkt _ l hl]
+    simp only [Bool.true_and]
+    split
+    · rename_i h; rw [h, mk_setA]
+    · rename_i h; have h' : l.any (clausesMatch env pkt 0) = false := by simpa using h
+      rw [h']
+  · -- second positive block
+    have hone : npos = 1 := by omega
+    subst hone
+    have hd : b.doneFirstPositive = true := by simpa using inv.done
+    have hu : b.usingBlocks = true := by
+      cases h : b.usingBlocks
+      · have := (inv.idle h).2.1; omega
+      · rfl
+    have hb : posAppend cfg b l =
+        { b with rules := b.rules ++ l.map (setter cfg.markScratch1) ++
+            [({ clauses := [.mark false 0 cfg.markScratch1], action := .clearMark cfg.markScratch0 } : Netfilter.Rule)] } := by
+      simp [posAppend, MBB.maybeInit, MBB.markToSet, MBB.finishPositive, hu, hd]
+    rw [hb]
+    refine ⟨fun h => by simp [hu] at h, ?_, by simpa using hd⟩
+    intro _ rest m
+    obtain ⟨t, ht, hrun⟩ := inv.run hu
+      (l.map (setter cfg.markScratch1) ++
+        ({ clauses := [.mark false 0 cfg.markScratch1], action := .clearMark cfg.markScratch0 } : Netfilter.Rule) :: rest) m
+    have ht := ht (by omega)
+    subst ht
+    refine ⟨l.any (clausesMatch env pkt 0), fun h => by omega, ?_⟩
+    simp only [List.append_assoc, List.cons_append, List.nil_append] at hrun ⊢
+    rw [hrun, run_setters env call pkt _ l hl]
+    have hbT := baseOf_and_T cfg.markScratch0 cfg.markScratch1 m
+    have hbA := baseOf_and_A cfg.markScratch0 cfg.markScratch1 m
+    by_cases hany : l.any (clausesMatch env pkt 0) = true
+    · simp only [hany, if_true, mk_setT, Bool.and_true]
+      rw [runRules]
+      have : (Rule.matches env pkt
+          (mk cfg.markScratch0 cfg.markScratch1 (baseOf cfg.markScratch0 cfg.markScratch1 m) pred true)
+          ({ clauses := [.mark false 0 cfg.markScratch1], action := .clearMark cfg.markScratch0 } : Netfilter.Rule)) = false := by
+        simp only [Rule.matches, List.all_cons, List.all_nil, Clause.matches, xorb, Bool.false_eq_true, if_false,
+          Bool.and_true]
+        rw [mk_testT_clear _ _ _ _ _ hT hAT hbT]; rfl
+      rw [if_neg (by rw [this]; exact Bool.false_ne_true)]
+    · have hany' : l.any (clausesMatch env pkt 0) = false := by simpa using hany
+      simp only [hany', Bool.false_eq_true, if_false, Bool.and_false]
+      rw [runRules]
+      have : (Rule.matches env pkt
+          (mk cfg.markScratch0 cfg.markScratch1 (baseOf cfg.markScratch0 cfg.markScratch1 m) pred false)
+          ({ clauses := [.mark false 0 cfg.markScratch1], action := .clearMark cfg.markScratch0 } : Netfilter.Rule)) = true := by
+        simp only [Rule.matches, List.all_cons, List.all_nil, Clause.matches, xorb, Bool.false_eq_true, if_false,
+          Bool.and_true]
+        rw [mk_testT_clear _ _ _ _ _ hT hAT hbT]; rfl
+      rw [if_pos this]
+      simp only [resolveAction, applyMark]
+      rw [mk_clearA _ _ _ _ _ hAT hbA]
+
+theorem neg_inv (env : Env) (call : String → Mark → Result) (pkt : Packet) (cfg : Cfg)
+    (hAT : cfg.markScratch0 &&& cfg.markScratch1 = 0)
+    (b : MBB) (npos : Nat) (pred : Bool) (l : List (List Clause))
+    (hl : ∀ cs ∈ l, cs.all markFree = true)
+    (inv : BInv env call pkt cfg b npos pred) :
+    BInv env call pkt cfg (negAppend cfg b l) npos (pred && !l.any (clausesMatch env pkt 0)) := by
+  cases hu : b.usingBlocks
+  · obtain ⟨hr, hz, hp⟩ := inv.idle hu
+    subst hz; subst hp
+    have hb : negAppend cfg b l =
+        { usingBlocks := true, doneFirstPositive := b.doneFirstPositive,
+          rules := ({ action := .setMaskedMark cfg.markScratch0 (cfg.markScratch0 ||| cfg.markScratch1) } : Netfilter.Rule) ::
+            l.map (clearer cfg.markScratch0) } := by
+      simp [negAppend, MBB.maybeInit, hu, hr]
+    rw [hb]
+    refine ⟨fun h => by simp at h, ?_, inv.done⟩
+    intro _ rest m
+    refine ⟨false, fun _ => rfl, ?_⟩
+    simp only [List.cons_append]
+    have := runRules_init env call pkt cfg true (l.map (clearer cfg.markScratch0) ++ rest) m
+    simp only [if_true] at this
+    rw [this, run_clearers env call pkt _ l hl]
+    have hbA := baseOf_and_A cfg.markScratch0 cfg.markScratch1 m
+    simp only [Bool.true_and]
+    split
+    · rename_i h; rw [h, mk_clearA _ _ _ _ _ hAT hbA]; rfl
+    · rename_i h; have h' : l.any (clausesMatch env pkt 0) = false := by simpa using h
+      rw [h']; rfl
+  · have hb : negAppend cfg b l = { b with rules := b.rules ++ l.map (clearer cfg.markScratch0) } := by
+      simp [negAppend, MBB.maybeInit, hu]
+    rw [hb]
+    refine ⟨fun h => by simp [hu] at h, ?_, inv.done⟩
+    intro _ rest m
+    obtain ⟨t, ht, hrun⟩ := inv.run hu (l.map (clearer cfg.markScratch0) ++ rest) m
+    refine ⟨t, ht, ?_⟩
+    simp only [List.append_assoc] at hrun ⊢
+    rw [hrun, run_clearers env call pkt _ l hl]
+    have hbA := baseOf_and_A cfg.markScratch0 cfg.markScratch1 m
+    split
+    · rename_i h; rw [h, mk_clearA _ _ _ _ _ hAT hbA]; simp
+    · rename_i h; have h' : l.any (clausesMatch env pkt 0) = false := by simpa using h
+      rw [h']; simp
+
 end CalicoVerif.C08
